@@ -38,6 +38,7 @@ class FnSpec:
         self.ret = 'r'
         self.panic_frame = False
         self.optional = False
+        self.no_panic = False
         self.spec = []          # [(text, vcfile, vcline)]
         self.loops = {}         # ordinal -> [(text, vcfile, vcline)]
         self.ats = []           # [(anchor, [(text, vcfile, vcline)])]
@@ -78,13 +79,23 @@ WORDS = {
 }
 
 
+PARAMSETS = {
+    # RankSmall<NUM_U32S, COUNTER_WIDTH>: words per block, words per sub-block, sub-blocks per block
+    '2_9': {'N': '2', 'CW': '9', 'WPB': '8', 'WPS': '1', 'NSUB': '8'},
+    '1_9': {'N': '1', 'CW': '9', 'WPB': '8', 'WPS': '2', 'NSUB': '4'},
+    '1_10': {'N': '1', 'CW': '10', 'WPB': '16', 'WPS': '4', 'NSUB': '4'},
+    '1_11': {'N': '1', 'CW': '11', 'WPB': '32', 'WPS': '8', 'NSUB': '4'},
+    '3_13': {'N': '3', 'CW': '13', 'WPB': '128', 'WPS': '16', 'NSUB': '8'},
+}
+
+
 class Unit:
     def __init__(self, name):
         """name is `<file>` or `<file>@<word type>`: the second form instantiates the template
         parameters {W}, {BITS}, {BYTES} of the sidecar (rule R1)."""
         self.name = name
         base, _, inst = name.partition('@')
-        self.params = dict(WORDS[inst]) if inst else {}
+        self.params = dict(WORDS[inst]) if inst in WORDS else (dict(PARAMSETS[inst]) if inst else {})
         self.path = os.path.join(CONTRACTS, base + '.vc')
         self.slice_recv = []
         self.slice_recv_ref = []
@@ -169,6 +180,8 @@ class Unit:
                         cur.panic_frame = True
                     elif word == 'optional':
                         cur.optional = True
+                    elif word == 'no_panic':
+                        cur.no_panic = True
                     elif word == 'no_end_probe':
                         cur.no_end_probe = True
                     elif word == 'spec':
@@ -489,6 +502,11 @@ def assemble(unit, index, expanded_name='expanded.rs', probe=None, lenient=False
                     continue
                 raise
             inserts.append((off, order, [Line(t, 'proof', dn, vf, vl, fs.props) for (t, vf, vl) in blk]))
+        if fs.no_panic:
+            # the function is claimed never to panic on inputs satisfying its requires: every panic site must be unreachable
+            for m3 in re.finditer(r'\bvpanic\(\)', bcode):
+                inserts.append((m3.start(), 0, [Line('proof { assert(false); } // no_panic: this panic site must be unreachable', 'gen', dn,
+                                                     expanded_name, None, fs.props, 'no-panic')]))
         if fs.panic_frame:
             # every vpanic() in a &mut self method must be reached with self unchanged
             for m3 in re.finditer(r'\bvpanic\(\)', bcode):
